@@ -60,7 +60,7 @@ def gen_family_op(r, fam, o, op, maxn, gen_slice):
         op["x"], op["y"] = fwd(), fwd()
         op["dlen"] = r.weighted([(8, 0), (1, 1), (1, -1)])
     elif o in ("d_mask_get", "d_mask_set"):
-        op["m"] = [r.below(2) for _ in range(30)]
+        op["m"] = [r.choice([0, 1, 1, 0, 2, -1]) for _ in range(30)]      # any non-zero entry selects
         op["form"] = r.choice(["scalar", "a2d", "full1d", "packed1d", "bad1d"])
         op["dx"] = r.weighted([(9, 0), (1, 1)])
     elif o in ("v_new",):
@@ -69,7 +69,7 @@ def gen_family_op(r, fam, o, op, maxn, gen_slice):
         op["sizes"] = [r.range(0, 4) for _ in range(5)]
         op["how"] = r.choice(["sizes", "uniform", "empty"])
     elif o in ("v_mask", "s_mask", "s_set_m", "v_set_m"):
-        op["m"] = [r.below(2) for _ in range(8)]
+        op["m"] = [r.choice([0, 1, 1, 0, 2, -1]) for _ in range(8)]        # any non-zero entry selects
         op["dlen"] = r.weighted([(9, 0), (1, 1)])
         op["k"] = r.below(64)
         op["form"] = r.choice(["scalar", "full", "packed"])
